@@ -113,6 +113,20 @@ fn check_allowed_values(value: Value, av_evaluator: Option<&Evaluator>) -> Value
   }
 }
 
+/// Checks the items of a collection: the allowed values of a collection constrain its items.
+fn check_allowed_values_of_items(values: Values, av_evaluator: Option<&Evaluator>) -> Value {
+  if let Some(evaluator) = av_evaluator {
+    for item_value in values.as_vec() {
+      let scope = Scope::default();
+      scope.set_entry(&"?".into(), item_value.clone());
+      if !evaluator(&scope).is_true() {
+        return value_null!("item value not allowed");
+      }
+    }
+  }
+  Value::List(values)
+}
+
 ///
 fn build_simple_type_evaluator(feel_type: FeelType, av_evaluator: Option<Evaluator>) -> Result<ItemDefinitionEvaluatorFn> {
   ///
@@ -268,7 +282,7 @@ fn build_collection_of_simple_type_evaluator(feel_type: FeelType, av_evaluator: 
             return value_null!("item definition evaluator (CollectionOfSimpleType): expected string");
           }
         }
-        check_allowed_values(Value::List(evaluated_values), av_evaluator.as_ref())
+        check_allowed_values_of_items(evaluated_values, av_evaluator.as_ref())
       } else {
         value_null!("item definition evaluator (CollectionOfSimpleType): expected list")
       }
@@ -286,7 +300,7 @@ fn build_collection_of_simple_type_evaluator(feel_type: FeelType, av_evaluator: 
             return value_null!("item definition evaluator (CollectionOfSimpleType): expected number");
           }
         }
-        check_allowed_values(Value::List(evaluated_values), av_evaluator.as_ref())
+        check_allowed_values_of_items(evaluated_values, av_evaluator.as_ref())
       } else {
         value_null!("item definition evaluator (CollectionOfSimpleType): expected list")
       }
@@ -304,7 +318,7 @@ fn build_collection_of_simple_type_evaluator(feel_type: FeelType, av_evaluator: 
             return value_null!("item definition evaluator (CollectionOfSimpleType): expected boolean");
           }
         }
-        check_allowed_values(Value::List(evaluated_values), av_evaluator.as_ref())
+        check_allowed_values_of_items(evaluated_values, av_evaluator.as_ref())
       } else {
         value_null!("item definition evaluator (CollectionOfSimpleType): expected list")
       }
@@ -322,7 +336,7 @@ fn build_collection_of_simple_type_evaluator(feel_type: FeelType, av_evaluator: 
             return value_null!("item definition evaluator (CollectionOfSimpleType): expected date");
           }
         }
-        check_allowed_values(Value::List(evaluated_values), av_evaluator.as_ref())
+        check_allowed_values_of_items(evaluated_values, av_evaluator.as_ref())
       } else {
         value_null!("item definition evaluator (CollectionOfSimpleType): expected list")
       }
@@ -340,7 +354,7 @@ fn build_collection_of_simple_type_evaluator(feel_type: FeelType, av_evaluator: 
             return value_null!("item definition evaluator (CollectionOfSimpleType): expected time");
           }
         }
-        check_allowed_values(Value::List(evaluated_values), av_evaluator.as_ref())
+        check_allowed_values_of_items(evaluated_values, av_evaluator.as_ref())
       } else {
         value_null!("item definition evaluator (CollectionOfSimpleType): expected list")
       }
@@ -358,7 +372,7 @@ fn build_collection_of_simple_type_evaluator(feel_type: FeelType, av_evaluator: 
             return value_null!("item definition evaluator (CollectionOfSimpleType): expected date and time");
           }
         }
-        check_allowed_values(Value::List(evaluated_values), av_evaluator.as_ref())
+        check_allowed_values_of_items(evaluated_values, av_evaluator.as_ref())
       } else {
         value_null!("item definition evaluator (CollectionOfSimpleType): expected list")
       }
@@ -376,7 +390,7 @@ fn build_collection_of_simple_type_evaluator(feel_type: FeelType, av_evaluator: 
             return value_null!("item definition evaluator (CollectionOfSimpleType): expected days and time duration");
           }
         }
-        check_allowed_values(Value::List(evaluated_values), av_evaluator.as_ref())
+        check_allowed_values_of_items(evaluated_values, av_evaluator.as_ref())
       } else {
         value_null!("item definition evaluator (CollectionOfSimpleType): expected list")
       }
@@ -394,7 +408,7 @@ fn build_collection_of_simple_type_evaluator(feel_type: FeelType, av_evaluator: 
             return value_null!("item definition evaluator (CollectionOfSimpleType): expected months and years duration");
           }
         }
-        check_allowed_values(Value::List(evaluated_values), av_evaluator.as_ref())
+        check_allowed_values_of_items(evaluated_values, av_evaluator.as_ref())
       } else {
         value_null!("item definition evaluator (CollectionOfSimpleType): expected list")
       }
@@ -423,7 +437,7 @@ fn build_collection_of_referenced_type_evaluator(type_ref: String, av_evaluator:
         for item_value in values.as_vec() {
           evaluated_values.add(evaluator(item_value, evaluators));
         }
-        check_allowed_values(Value::List(evaluated_values), av_evaluator.as_ref())
+        check_allowed_values_of_items(evaluated_values, av_evaluator.as_ref())
       } else {
         value_null!("no evaluator defined for type reference '{}'", type_ref)
       }
@@ -461,7 +475,7 @@ fn build_collection_of_component_type_evaluator(item_definition: &ItemDefinition
           return value_null!("expected context, actual type is '{}' in value '{}'", item_value.type_of(), item_value);
         }
       }
-      check_allowed_values(Value::List(evaluated_values), av_evaluator.as_ref())
+      check_allowed_values_of_items(evaluated_values, av_evaluator.as_ref())
     } else {
       value_null!("expected list, actual type is '{}' in value '{}'", value.type_of(), value)
     }
